@@ -5,7 +5,7 @@
 
        let (signal_tx, signal_rx) = watch::channel(());             rx_count = 1, version = 0
        let mut sig = pin!(Fuse { inner: signal });                  sig_fused = false
-       loop { select! {                                             acc = Selecting
+       loop { select! { biased;                                     acc = Selecting
            _ = &mut sig => break,                                   SignalObserved
            io = incoming.next() => match io {
                Some(Ok(io))  => serve_connection(.., Some(signal_rx.clone()), ..),   Accept c
@@ -26,9 +26,13 @@
        drop(watcher);                                               DropReceiver c
 
    The signal itself is the environment's: SignalFires makes the (user supplied) signal future
-   ready; SignalObserved is the later moment at which select! - which tonic uses WITHOUT
-   `biased;`, so the branch order is random - polls it and takes the branch.  In between, Accept
-   stays possible.
+   ready; SignalObserved is the later moment at which the accept loop's task is polled and its
+   select! takes the branch.  The select! is `biased;` with the signal branch first (since the fix
+   of finding F-C13a; before, the branch order was random and a ready listener won against a ready
+   signal half of the time, again and again): every iteration polls the signal first and polls
+   the listener only if the signal is still pending.  So Accept, IncomingErr and IncomingEnd are
+   enabled only while [sig_ready = false]: between SignalFires and SignalObserved the loop has no
+   move but SignalObserved.
 
    hyper's side of graceful_shutdown is explicit as well, because it is visible on the wire:
    Goaway c (the GOAWAY announcement with last-stream-id 2^31-1, written once graceful_shutdown
@@ -48,7 +52,17 @@
      resolves hp infl - may the connection future resolve on its own (peer closed cleanly / drained)
    The handshake state is explicit because hyper's graceful_shutdown only notes [close_pending]
    while the HTTP/2 preface has not arrived (observed with the real crate: such a connection is
-   not closed by the shutdown until its peer speaks or goes away). *)
+   not closed by the shutdown until its peer speaks or goes away).  That is the builder's default,
+   [http2_only].  With [accept_http1(true)] (section variable [http1]) the connection starts in
+   hyper-util's version detection instead (auto::Connection, state ReadVersion), and there
+   graceful_shutdown CANCELS the detection: the connection future resolves at its next poll
+   (io::ErrorKind::Interrupted) and the bytes of a peer that speaks later are never read.  So with
+   [http1] a connection that was told during HS has the move ConnCloses and loses HandshakeDone.
+
+   [watch::Sender::send] fails, storing nothing, when the channel has no receiver.  serve_internal
+   ignores the result ([let _ =]).  The branch is in [step_fn] because it is in tokio; it is dead
+   code in every reachable state, since the accept loop still holds [signal_rx] when it sends
+   (theorem c13_send_always_delivers). *)
 From Coq Require Import List NArith Bool Arith.
 From Verif Require Import Lib.Obs.
 Import ListNotations.
@@ -126,21 +140,29 @@ Definition set_conn (s : st) (c : cid) (v : cstate) : st :=
   mkSt (acc s) (sig_ready s) (sig_fused s) (version s) (rx_count s) (upd c v (conns s)).
 
 Section Step.
+  (* Server::accept_http1 *)
+  Variable http1 : bool.
   Variable admits : gphase -> list kid -> bool.
   Variable resolves : gphase -> list kid -> bool.
 
   (* one transition; None = the label is not enabled in s *)
   Definition step_fn (s : st) (l : label) : option st :=
     match l with
+    (* the three outcomes of [incoming.next()] - polled only when the signal, polled first, was
+       still pending *)
     | Accept c =>
-        match acc s, lookup c (conns s) with
-        | Selecting, None =>
+        match acc s, sig_ready s, lookup c (conns s) with
+        | Selecting, false, None =>
             Some (mkSt Selecting (sig_ready s) (sig_fused s) (version s) (S (rx_count s))
                        ((c, Live HS false false GRun []) :: conns s))
+        | _, _, _ => None
+        end
+    | IncomingErr => match acc s, sig_ready s with Selecting, false => Some s | _, _ => None end
+    | IncomingEnd =>
+        match acc s, sig_ready s with
+        | Selecting, false => Some (set_acc s (Draining AtSend))
         | _, _ => None
         end
-    | IncomingErr => match acc s with Selecting => Some s | _ => None end
-    | IncomingEnd => match acc s with Selecting => Some (set_acc s (Draining AtSend)) | _ => None end
     | SignalFires =>
         if sig_ready s then None
         else Some (mkSt (acc s) true (sig_fused s) (version s) (rx_count s) (conns s))
@@ -173,7 +195,9 @@ Section Step.
         end
     | HandshakeDone c =>
         match lookup c (conns s) with
-        | Some (Live HS gs f hp infl) => Some (set_conn s c (Live Open gs f hp infl))
+        | Some (Live HS gs f hp infl) =>
+            (* a cancelled version detection reads nothing any more *)
+            if http1 && gs then None else Some (set_conn s c (Live Open gs f hp infl))
         | _ => None
         end
     | ConnSeesChange c =>
@@ -214,6 +238,9 @@ Section Step.
         match lookup c (conns s) with
         | Some (Live Open gs f hp infl) =>
             if resolves hp infl then Some (set_conn s c (Closed true)) else None
+        | Some (Live HS gs f hp []) =>
+            (* graceful_shutdown during hyper-util's version detection cancels it *)
+            if http1 && gs then Some (set_conn s c (Closed true)) else None
         | _ => None
         end
     | PeerAbort c =>
@@ -306,12 +333,14 @@ Fixpoint see_all (l : list (cid * cstate)) : list label :=
   | (c, Live _ _ false _ _) :: r => ConnSeesChange c :: see_all r
   | _ :: r => see_all r
   end.
-Definition quiet (v : cstate) : bool :=
-  match v with Closed false => true | Live HS true true _ _ => true | _ => false end.
+(* with accept_http1 a told connection in its handshake is not quiet: it closes *)
+Definition quiet (http1 : bool) (v : cstate) : bool :=
+  match v with Closed false => true | Live HS true true _ _ => negb http1 | _ => false end.
 (* nothing left to do but wait for peers that never sent their preface *)
-Definition stalled_b (s : st) : bool :=
+Definition stalled_b (http1 : bool) (s : st) : bool :=
   match acc s with
-  | Draining AtWait => negb (Nat.eqb (rx_count s) 0) && forallb (fun p => quiet (snd p)) (conns s)
+  | Draining AtWait =>
+      negb (Nat.eqb (rx_count s) 0) && forallb (fun p => quiet http1 (snd p)) (conns s)
   | _ => false
   end.
 
@@ -329,8 +358,19 @@ Definition tell (age : bool) (s : st) (c : cid) : option (list label) :=
   | _ => Some []
   end.
 
+(* how a connection future came to resolve: an established connection after its final GOAWAY;
+   with accept_http1 also a connection still in version detection, once it has been told *)
+Definition closing (age http1 : bool) (s : st) (c : cid) : option (list label) :=
+  match lookup c (conns s) with
+  | Some (Live HS _ _ _ _) =>
+      if http1
+      then match tell age s c with Some t => Some (t ++ [ConnCloses c]) | None => None end
+      else Some [HandshakeDone c; ConnCloses c]
+  | _ => Some [ConnCloses c]
+  end.
+
 (* the steps (hidden ones first) that explain one observed event in state s *)
-Definition explain (age : bool) (s : st) (e : ev) : option (list label) :=
+Definition explain (age http1 : bool) (s : st) (e : ev) : option (list label) :=
   match e with
   | EAccept c => Some [Accept c]
   | ESignalFired => Some [SignalFires]
@@ -347,7 +387,7 @@ Definition explain (age : bool) (s : st) (e : ev) : option (list label) :=
   | ECallStart c k => Some (hs_if_needed s c ++ [NewCall c k])
   | ECallDone c k => Some [CallCompletes c k]
   | ECallDropped _ _ => None
-  | EConnClosed c => Some (hs_if_needed s c ++ [ConnCloses c])
+  | EConnClosed c => closing age http1 s c
   | EPeerAbort c => Some [PeerAbort c]
   | EServeReturned =>
       Some (acceptor_tail (acc s) ++ closed_holding (conns s) ++ [ServeReturns])
@@ -355,32 +395,32 @@ Definition explain (age : bool) (s : st) (e : ev) : option (list label) :=
       (* let every hidden move happen; what remains must be stalled *)
       Some (acceptor_tail (acc s) ++ see_all (conns s) ++ closed_holding (conns s))
   end.
-Definition post_ok (s : st) (e : ev) : bool :=
+Definition post_ok (http1 : bool) (s : st) (e : ev) : bool :=
   match e with
-  | EQuiet => stalled_b s
+  | EQuiet => stalled_b http1 s
   | EIdleAfterFire => match acc s with Selecting => false | _ => true end
   | _ => true
   end.
 Definition visible (e : ev) : bool :=
   match e with EQuiet | EIdleAfterFire => false | _ => true end.
 
-Fixpoint check_trace (age : bool) (s : st) (evs : list ev) : option st :=
+Fixpoint check_trace (age http1 : bool) (s : st) (evs : list ev) : option st :=
   match evs with
   | [] => Some s
   | e :: r =>
-      match explain age s e with
+      match explain age http1 s e with
       | None => None
       | Some ls =>
-          match exec admits_std resolves_std s ls with
-          | Some s1 => if post_ok s1 e then check_trace age s1 r else None
+          match exec http1 admits_std resolves_std s ls with
+          | Some s1 => if post_ok http1 s1 e then check_trace age http1 s1 r else None
           | None => None
           end
       end
   end.
 
 Definition is_done (a : acceptor) : bool := match a with Done => true | _ => false end.
-Definition trace_ok (age : bool) (evs : list ev) : bool :=
-  match check_trace age init_st evs with Some s => is_done (acc s) | None => false end.
+Definition trace_ok (age http1 : bool) (evs : list ev) : bool :=
+  match check_trace age http1 init_st evs with Some s => is_done (acc s) | None => false end.
 
 (* ---- what every caller must have seen ----------------------------------------------------- *)
 Record call := mkCall {
@@ -398,6 +438,34 @@ Definition expected (evs : list ev) (aborted : list kid) (cl : call) : tr :=
        then Nd [Nn (cl_id cl); Nn 1; Nd (map Bs (cl_msgs cl)); Nn (cl_code cl); Bs (cl_text cl)]
        else Nd [Nn (cl_id cl); Nn 0].
 
-(* age = max_connection_age is configured *)
-Definition obs_shutdown (age : bool) (evs : list ev) (calls : list call) (aborted : list kid) : tr :=
-  Nd (obool (trace_ok age evs) :: map (expected evs aborted) calls).
+(* age = max_connection_age is configured, http1 = accept_http1(true) *)
+Definition obs_shutdown (age http1 : bool) (evs : list ev) (calls : list call)
+    (aborted : list kid) : tr :=
+  Nd (obool (trace_ok age http1 evs) :: map (expected evs aborted) calls).
+
+(* ---- serve_with_shutdown over TCP ------------------------------------------------------------
+   There the listener (TcpIncoming) and the server's transport objects are tonic's own: the
+   harness sees neither accepts nor GOAWAY frames nor connection closes - only the signal, the
+   application-level start and end of every call and the return of the serve future.  The
+   unobservable events are filled in at the most favourable places before the same checker runs:
+   a connection is accepted right before its first call starts (every connection of a tcp scenario
+   completes a call before the signal fires), and right before the serve future returns every
+   connection announces, finishes and closes.  What the check still decides: no call starts on a
+   connection first seen after the signal, nothing starts after a return, every started call is
+   complete when the serve future returns, the signal is observed once and after it fired. *)
+Fixpoint close_all (cs : list cid) : list ev :=
+  match cs with
+  | [] => []
+  | c :: r => EGoaway c :: EGoawayFinal c :: EConnClosed c :: close_all r
+  end.
+Fixpoint complete_tcp (known : list cid) (evs : list ev) : list ev :=
+  match evs with
+  | [] => []
+  | ECallStart c k :: r =>
+      if mem c known then ECallStart c k :: complete_tcp known r
+      else EAccept c :: ECallStart c k :: complete_tcp (c :: known) r
+  | EServeReturned :: r => close_all (rev known) ++ EServeReturned :: complete_tcp [] r
+  | e :: r => e :: complete_tcp known r
+  end.
+Definition obs_shutdown_tcp (evs : list ev) (calls : list call) (aborted : list kid) : tr :=
+  obs_shutdown false false (complete_tcp [] evs) calls aborted.
